@@ -802,6 +802,10 @@ func checkC08(c *Ctx) {
 	checkEventsCarryEndpoints(c, "R11", evtCh)
 	c.Rule("R12", "the stored endpoint list shares its array with queued add events: no nil is stored into one of its slots")
 	checkSharedEndpointArray(c, "R12")
+	c.Rule("R16", "an entry of the service table is created only when the name is unknown: a known service keeps its entry (configuration, endpoints) when it is announced again")
+	checkServiceEntryCreatedOnlyWhenUnknown(c, "R16")
+	c.Rule("R17", "a removed endpoint leaves the processor's usable hosts (shared with C15.R10): from every delete on the member map the stored object reaches a tier purge on every path, whatever its health flag says")
+	checkMemberDeleteLeavesTiers(c, "R17")
 	c.Rule("R14", "a processor is built under the service name itself, the key the controller looks it up with")
 	checkProcessorKeepsServiceName(c, "R14")
 	c.Rule("R15", "the store learns of a new dependency before the subscription for it is made")
@@ -1306,5 +1310,79 @@ func checkStoreLearnsBeforeSubscribe(c *Ctx, rule string) {
 	}
 	if n == 0 {
 		c.Unresolved(rule, "the dependency hook does not subscribe")
+	}
+}
+
+// checkServiceEntryCreatedOnlyWhenUnknown (C08.R16): what the store knows about a service - its configuration and
+// its endpoint list - lives in the entry of the service table. An entry is created only on the miss side of a lookup
+// of the same name: a known service that is announced again keeps its entry. Replacing it (even "carrying over" some
+// fields) forgets the endpoint list; the next endpoint delta is then applied to an empty list and announced as an add
+// that the controller ignores for an existing processor - the processor never converges.
+func checkServiceEntryCreatedOnlyWhenUnknown(c *Ctx, rule string) {
+	p := c.P
+	isTable := func(t types.Type) bool {
+		m, ok := t.Underlying().(*types.Map)
+		if !ok {
+			return false
+		}
+		pt, ok := m.Elem().(*types.Pointer)
+		return ok && modType(pt.Elem(), configPkg, "serviceWrapper")
+	}
+	var sameKey func(a, b ssa.Value, d int) bool
+	sameKey = func(a, b ssa.Value, d int) bool {
+		a, b = stripConv(resolveCell(a)), stripConv(resolveCell(b))
+		if a == b {
+			return true
+		}
+		if d > 3 {
+			return false
+		}
+		// two loads of the same field of the same object (svc.Name read twice)
+		la, oka := a.(*ssa.UnOp)
+		lb, okb := b.(*ssa.UnOp)
+		if oka && okb && la.Op == token.MUL && lb.Op == token.MUL {
+			fa, oka := la.X.(*ssa.FieldAddr)
+			fb, okb := lb.X.(*ssa.FieldAddr)
+			if oka && okb && fa.Field == fb.Field {
+				return sameKey(fa.X, fb.X, d+1)
+			}
+		}
+		return false
+	}
+	le := newLockEngine(p, configPkg)
+	n := 0
+	for _, fn := range p.FuncsIn(configPkg) {
+		if p.isTestFn(fn) {
+			continue
+		}
+		eachInstr(fn, func(b *ssa.BasicBlock, _ int, in ssa.Instruction) {
+			mu, ok := in.(*ssa.MapUpdate)
+			if !ok || !isTable(mu.Map.Type()) {
+				return
+			}
+			// the table being filled before the store is shared (no lock taken: the static services at start-up)
+			if _, fresh := mu.Map.(*ssa.MakeMap); fresh || len(le.before[in]) == 0 {
+				return
+			}
+			n++
+			missed := false
+			for _, a := range atomsAt(b, 0) {
+				if a.cmp != nil || a.truth {
+					continue
+				}
+				ex, isEx := a.val.(*ssa.Extract)
+				if !isEx || ex.Index != 1 {
+					continue
+				}
+				lk, isLk := ex.Tuple.(*ssa.Lookup)
+				if isLk && lk.CommaOk && isTable(lk.X.Type()) && sameKey(lk.Index, mu.Key, 0) {
+					missed = true
+				}
+			}
+			c.Check(missed, rule, fmt.Sprintf("%s creates a service entry only for an unknown name#%d", fnKey(fn), n), in.Pos(), "the store into the service table is on the miss side of a comma-ok lookup of the same name", "the entry of a service that is already known is replaced: the endpoint list (and whatever else the store has learned) is forgotten while the processor keeps running with it - the next endpoint delta is applied to an empty list and emitted as an add, which the controller ignores for an existing processor; hosts removed by that delta stay, hosts added by it never arrive")
+		})
+	}
+	if n == 0 {
+		c.Unresolved(rule, "no store into the service table")
 	}
 }
